@@ -535,6 +535,8 @@ def run(ctx):  # noqa: C901, PLR0912, PLR0915
            f'_increment_parent_descriptor_version raises the version of an object that is not (always) the MDIB descriptor '
            f'({wit}): the reported DescriptorVersion and the one the state copies differ from the stored one', fi=ip, witness=wit)
 
+    from . import common
+    common.index_lists_not_mutated_while_iterated(ctx, 'C02.R4')
     # ------------------------------------------------------------ R5 single writer
     regs = [w for w in yields[0].withs]
     held = [unparse(i.context_expr) for w in regs for i in w.items]
